@@ -369,6 +369,16 @@ def strictlyIncreasing : List Nat → Bool
   | [_] => true
   | a :: b :: rest => a < b && strictlyIncreasing (b :: rest)
 
+/-- `validateCompleteMultipartUploadParts`: the declared part numbers are scanned in order; the
+first one that is not greater than its predecessor is InvalidPartOrder, the first one that was
+never uploaded is InvalidPart. -/
+def scanDeclared (prev : Nat) (stored : List Nat) : List Nat → Option Err
+  | [] => none
+  | d :: ds =>
+    if d ≤ prev then some .invalidPartOrder
+    else if !stored.contains d then some .invalidPart
+    else scanDeclared d stored ds
+
 def keyLt (a b : String) : Bool := a < b
 
 def insertSorted {α} (lt : α → α → Bool) (x : α) : List α → List α
@@ -495,10 +505,9 @@ def step (q : Quirks) (s0 : State) (op : Op) : State × Out :=
           | none => none
           | some ds =>
             if ds.isEmpty then none
-            else if !strictlyIncreasing ds || ds.head? == some 0 then some .invalidPartOrder
-            else if ds.any (fun d => !(u.parts.any (·.1 == d))) then some .invalidPart
-            else if ds.length != u.parts.length then some .invalidPart
-            else none
+            else match scanDeclared 0 (u.parts.map (·.1)) ds with
+              | some e => some e
+              | none => if ds.length != u.parts.length then some .invalidPart else none
         match declErr with
         | some e => (s, .err e)
         | none =>
@@ -535,7 +544,8 @@ def step (q : Quirks) (s0 : State) (op : Op) : State × Out :=
     | none => (s, .err .noSuchKey)
     | some r =>
       if r.dm then (s, .err .noSuchKey)
-      else (setBucket s (replaceRow bk (touch q now { r with cls := some cls })), .unit)
+      -- TransitionObject re-saves the part rows numbered from 0
+      else (setBucket s (replaceRow bk (touch q now { r with cls := some cls, seqBase := 0 })), .unit)
   | .list b => withBucket b fun bk =>
     let rs := bk.rows.filter fun r => r.latest && !r.dm
     (s, .listing ((sortBy (fun a b => a.key < b.key) rs).map fun r => (r.key, r.size, r.etag, r.cls)))
